@@ -8,7 +8,7 @@ from pvc.contract import Contract
 from pvc.explore import Raised
 from pvc.sym import And, Or, Not, Implies, eq, lt, le, is_sym, smin, smax, ssum
 from . import fx
-from .net import Net, build_dcop, global_cost, HandlerRaised
+from .net import Net, build_dcop, global_cost, HandlerRaised, get_spec
 
 SPECS = {
     "pair": dict(vars={"x1": [0, 1], "x2": ["a", "b"]}, cons=[["x1", "x2"]]),
@@ -25,7 +25,7 @@ SPECS = {
 
 def h_syncbb(env):
     p = env.params
-    spec = SPECS[p["spec"]]
+    spec = get_spec(env, p, SPECS)
     mode = env.choice("mode", p.get("modes", ["min", "max"]))
     lo = 0 if mode == "min" else None
     variables, cons, tabs, varcost = build_dcop(env, spec, lo=lo)
@@ -81,6 +81,9 @@ def _shapes(tier, prop=None):
     # 4 variables: a variable in the middle of the order backtracks under a finite bound (too many paths for the exact
     # exploration: decided by the sampled native pass, several parts in parallel)
     q += [dict(spec="line4", modes=["min"], sample_only=True, sample_factor=12, sample_part=i) for i in range(4)]
+    q += [dict(spec="rand5", modes=["min"], sample_only=True, sample_factor=6, sample_part=6, unary=False, costkinds=["plain"], inst_to=60),
+          dict(spec="rand5", modes=["max"], sample_only=True, sample_factor=4, sample_part=7, unary=False, costkinds=["plain"], connected=False, max_dom=2),
+          dict(spec="rand6", modes=["min"], sample_only=True, sample_factor=4, sample_part=8, unary=False, costkinds=["plain"], max_dom=2, inst_to=60)]
     q += [dict(spec="chain4", modes=["min"], sample_only=True, sample_factor=12, sample_part=4),
           dict(spec="line4", modes=["max"], sample_only=True, sample_factor=12, sample_part=5)]
     if prop == "C10" and tier == "quick":
